@@ -9,6 +9,8 @@ CONSTANTS
   DropKillsIter = FALSE
   BatchSet = {}
   AliasBatches = FALSE
+  Others = FALSE
+  SharedDefault = FALSE
 INVARIANT PrefixAlways
 INVARIANT FullWhenDone
 INVARIANT FinishedAll
